@@ -339,7 +339,7 @@ Fixpoint conflict_answers (rg : registry) (answers : list rr) (now : N) (js : li
   | a :: t =>
     if conflict_applies rg a then
       let (j, js') := draw js in
-      conflict_answers (conflict_one rg a (now + j)) t now js'
+      conflict_answers (apply_conflict rg a (now + j)) t now js'
     else conflict_answers rg t now js
   end.
 
@@ -436,13 +436,8 @@ Definition answer_instance_question (st : dstate) (g : dgram) (itf : intf) (rg :
 
 (* the tiebreaking call of handle_query *)
 Definition tiebreak_question (rg : registry) (g : dgram) (qn : bytes) (qt : N) (now : N) : registry :=
-  if (qt =? TY_ANY) && negb (match g_ns g with [] => true | _ => false end) then
-    match aget qn (rg_probing rg) with
-    | Some pb =>
-      let incoming := filter (fun r => beq (r_name r) qn) (g_ns g) in
-      mkReg (aset qn (tiebreak pb incoming now) (rg_probing rg)) (rg_active rg) (rg_changes rg)
-    | None => rg
-    end
+  if (qt =? TY_ANY) && negb (match g_ns g with [] => true | _ => false end)
+  then apply_tiebreak rg qn (filter (fun r => beq (r_name r) qn) (g_ns g)) now
   else rg.
 
 Fixpoint handle_questions (st : dstate) (g : dgram) (itf : intf) (rg : registry) (qs : list (bytes * N)) (now : N)
